@@ -100,6 +100,8 @@ class BaseTorchFlow(Flow):
                 strict=False,
             )
             config["data_transform"] = data_transform
+        # Extra constructor keyword arguments are saved as a nested group
+        config.update(config.pop("kwargs", {}))
         obj = self(**config)
         # Load weights
         weights = {
@@ -135,7 +137,8 @@ class ZukoFlow(BaseTorchFlow):
             FlowClass = flow_class
 
         # Ints are some times passed as strings, so we convert them
-        if hidden_features := kwargs.pop("hidden_features", None):
+        hidden_features = kwargs.pop("hidden_features", None)
+        if hidden_features is not None:
             kwargs["hidden_features"] = list(map(int, hidden_features))
 
         self.flow = FlowClass(self.dims, 0, **kwargs)
